@@ -135,7 +135,7 @@ package prolog
 //@ -- the producer goroutine (sequential view): starts the search only when the consumer asks for an answer, keeps the
 //@ -- error the search ends with for Err, and closes `next` when it is over so that Next can tell
 //@ func (*Interpreter).QueryContext$1
-//@   property C12
+//@   property C12 C13
 //@   nosafety
 //@   trusted-frame
 //@   bind fok, ferr = engine.(*Promise).Force#1
